@@ -982,3 +982,192 @@ def C10(ck):
 
 PRESETS = ["NONE&NONE", "LZX&NONE", "DNA+LZ&HUFFMAN", "TEXT+UTF+PACK+MM+LZX&HUFFMAN", "TEXT+UTF+EXE+PACK+MM+ROLZ&NONE", "TEXT+UTF+BWT+RANK+ZRLT&ANS0",
            "TEXT+UTF+BWT+SRT+ZRLT&FPAQ", "LZP+TEXT+UTF+BWT+LZP&CM", "EXE+RLT+TEXT+UTF+DNA&TPAQ", "EXE+RLT+TEXT+UTF+DNA&TPAQX"]
+
+
+# ------------------------------------------------------------------------------------------------
+LEVEL['C19'] = 'model_checking'
+
+
+def C19(ck):
+    import shutil, itertools
+    import kzcli
+    T = thorough(ck)
+    rnd = random.Random(ck.seed * 23 + 7)
+    # (a) KzCli: one file task with a crash in every state, every option combination
+    for order, expect_ok in (('asis', True), ('unlinkfirst', False)):
+        bad = 0
+        for rm, force, oe, sf in itertools.product(('TRUE', 'FALSE'), repeat=4):
+            if sf == 'TRUE' and oe == 'FALSE':
+                continue
+            for chunks in ((1, 3) if T else (2,)):
+                c = ('CONSTANTS\n Rm = %s\n Force = %s\n OutExists = %s\n SameFile = %s\n Chunks = %d\n Order = "%s"\nSPECIFICATION Spec\n'
+                     'INVARIANTS CrashSafe NoClobber NeverWritesInput InputIntact ExitOK\n') % (rm, force, oe, sf, chunks, order)
+                res = kzv.tlc('KzCli', c, workers=1, timeout=300)
+                if expect_ok:
+                    ck.add_tlc(res, 'KzCli rm=%s force=%s outExists=%s sameFile=%s' % (rm, force, oe, sf))
+                    if not res.ok:
+                        raise kzv.ToolFailure('KzCli fails its own check: ' + res.out[-1500:])
+                elif res.violated:
+                    bad += 1
+        if not expect_ok:
+            ck.cov['selftest_unlinkfirst'] = {'configs_violating_CrashSafe': bad}
+            if bad == 0:
+                raise kzv.ToolFailure('vacuity self-test: removing the source first does not violate CrashSafe')
+    # (b) the real tool
+    root = os.path.join(kzv.BUILD, 'c19_%d' % os.getpid())
+    cli = kzcli.Cli(ck, root)
+    try:
+        k = 0
+        for lvl in (range(10) if T else (0, 1, 3, 5, 8)):
+            cli.inplace_rm(rnd, k, ['-l', str(lvl)] + kzcli.extra_opts(rnd), 'level %d' % lvl)
+            k += 1
+        for i in range(40 if T else 6):
+            o = kzcli.level_opts(rnd) + kzcli.extra_opts(rnd)
+            cli.inplace_rm(rnd, k, o, ' '.join(o))
+            k += 1
+        for i in range(20 if T else 4):
+            o = kzcli.level_opts(rnd) + kzcli.extra_opts(rnd)
+            cli.to_dir(rnd, k, o, ' '.join(o), force=(i % 2 == 0))
+            k += 1
+        for i in range(20 if T else 4):
+            o = kzcli.level_opts(rnd) + kzcli.extra_opts(rnd)
+            cli.single_and_pipes(rnd, k, o, ' '.join(o))
+            k += 1
+        for i in range(6 if T else 2):
+            cli.safety(rnd, k, kzcli.level_opts(rnd) + ['-v', '0'])
+            k += 1
+        for i in range(120 if T else 10):
+            o = rnd.choice([['-l', '1'], ['-l', '2'], ['-l', '3'], ['-l', '5'], ['-t', 'NONE', '-e', 'NONE']]) + ['-v', '0']
+            cli.kill(rnd, k, o, 'SIGKILL during --rm ' + ' '.join(o))
+            k += 1
+        tracef = os.path.join(root, 'trace.ndjson')
+        with open(tracef, 'w') as fh:
+            for e in cli.events:
+                fh.write(json.dumps(e) + '\n')
+        res = kzv.validate_trace('Trace_Cli', tracef, timeout=1800)
+        if res.error or res.violated:
+            raise kzv.ToolFailure('Trace_Cli failed: %s %s\n%s' % (res.error, res.violated, res.out[-1500:]))
+        ck.cov['states'] += res.distinct
+        ck.cov['transitions'] += res.generated
+        seen = set()
+        for e, pred in _violations_from(res.out, cli.events):
+            key = (pred, e.get('desc', '')[:30])
+            if key in seen:
+                continue
+            seen.add(key)
+            ck.violation({'kind': e['ev'], 'pred': pred, 'desc': e.get('desc'), 'detail': (e.get('detail') or e.get('path') or '')[:200],
+                          'exitc': e.get('exitc'), 'exitd': e.get('exitd')}, {'cmd': 'cli', 'event': e}, name='cli')
+        nsys = len([e for e in cli.events if e['ev'] == 'SYS'])
+        ck.cov['evaluations'] += cli.runs
+        ck.cov['distinct_nontrivial'] += len([e for e in cli.events if e['ev'] in ('TREE', 'KILL', 'CLOBBER', 'SELFIN')])
+        ck.cov['traces_validated_against_impl'] += len([e for e in cli.events if e['ev'] == 'RUN'])
+        ck.cov['syscall_events'] = nsys
+        ck.cov['kill_points'] = nsys
+        ck.sample({'TREE': [e for e in cli.events if e['ev'] == 'TREE'][0]})
+        syss = [e for e in cli.events if e['ev'] == 'SYS']
+        if syss:
+            ck.sample({'SYS': syss[:3]})
+    finally:
+        shutil.rmtree(root, ignore_errors=True)
+    ck.cov['rule'] = ('KzCli.tla (one file task, crash in every state, all combinations of --rm / -f / existing output / output = input) model-checked: '
+                      'CrashSafe, NoClobber, NeverWritesInput, InputIntact, ExitOK; the wrong order (source removed first) violates CrashSafe. The real '
+                      'tool (built from the working tree): random trees (empty files, nested directories, dot files, names with spaces) compressed and '
+                      'decompressed in place with --rm under strace for levels 0..9 and explicit -t/-e/-b/-j/-x/-s options, into other directories with -f, '
+                      'single files and stdin/stdout; every prefix of the syscall log is a kill point: Trace_Cli.tla requires that a source is only removed '
+                      'once its output has received all its bytes, that inputs are never opened for writing, that existing outputs survive without -f; '
+                      'plus real SIGKILLs at random moments of --rm runs. non-trivial = tree round trip, kill, clobber or self-input scenario')
+    ck.assumptions += ['process kill, not power loss: data handed to the kernel by write() counts as written',
+                       'output directories given with -o exist before the run (the tool requires it)']
+
+
+# ------------------------------------------------------------------------------------------------
+LEVEL['C18'] = 'other'
+
+
+def C18(ck):
+    import glob, re, shutil
+    T = thorough(ck)
+    # (a) ownership discipline on the single-instance specs (instances share no variable: non-interference is by construction)
+    wcfgs = [wcfg(j, 2 * j + 1, lens=(3, 2 * j + 1)) for j in ((2, 3, 4) if T else (2, 3))] + [wcfg(3, 7, lens=(3,), flush='emit', fail_blocks=[2])]
+    rcfgs = [rcfg(j, clean(j + 2), lens=(3, 7)) for j in ((2, 3, 4) if T else (2, 3))] + [rcfg(3, ['ok', 'crc', 'ok', 'ok', 'eos'], lens=(3,))]
+    wscen = kzwriter.run_models(ck, wcfgs, max_paths=None if T else 120)
+    rscen = kzreader.run_models(ck, rcfgs, max_paths=None if T else 120)
+    # (b) K pipelines concurrently, no race detector (fast, many)
+    kzh = kzv.build_harness()
+    base = os.path.join(kzv.BUILD, 'c18_%d' % os.getpid())
+    os.makedirs(base, exist_ok=True)
+    try:
+        tracef = os.path.join(base, 'multi.ndjson')
+        rc, so, se, dt = kzv.run([kzh, 'multi', '-n', str(48 if T else 24), '-rounds', str(12 if T else 3), '-seed', str(ck.seed), '-out', tracef], timeout=7200)
+        if rc != 0:
+            raise kzv.ToolFailure('multi driver failed: ' + se[-1500:])
+        n1 = int(so.strip() or 0)
+        # (c) the same under the race detector, plus the model schedules replayed under the race detector
+        kzr = kzv.build_harness(race=True)
+        logp = os.path.join(base, 'race')
+        env = dict(os.environ, GORACE='halt_on_error=0 exitcode=0 log_path=%s' % logp)
+        tracer = os.path.join(base, 'multi_race.ndjson')
+        p = kzv.subprocess.run([kzr, 'multi', '-n', str(24 if T else 12), '-rounds', str(4 if T else 1), '-seed', str(ck.seed + 1), '-out', tracer],
+                               env=env, stdout=kzv.subprocess.PIPE, stderr=kzv.subprocess.PIPE, timeout=7200)
+        if p.returncode != 0:
+            raise kzv.ToolFailure('multi driver (race build) failed: ' + p.stderr.decode()[-1500:])
+        n2 = int(p.stdout.decode().strip() or 0)
+        nrep = 0
+        for scen, cmd, realB in ((rscen, 'replay-reader', '1024'), (wscen, 'replay-writer', '2048')):
+            allscen = os.path.join(base, cmd + '.ndjson')
+            with open(allscen, 'w') as out:
+                for f in scen:
+                    with open(f) as fh:
+                        shutil.copyfileobj(fh, out)
+            p = kzv.subprocess.run([kzr, cmd, allscen, allscen + '.res', realB, str(ck.seed), '8'], env=env, stdout=kzv.subprocess.PIPE, stderr=kzv.subprocess.PIPE, timeout=7200)
+            if p.returncode != 0:
+                raise kzv.ToolFailure('%s (race build) failed: %s' % (cmd, p.stderr.decode()[-1500:]))
+            res = kzv.read_ndjson(allscen + '.res')
+            nrep += len(res)
+            for r in res:
+                if r['status'] == 'violation':
+                    ck.violation({'kind': 'replay-race', 'pred': r.get('pred'), 'detail': r.get('detail'), 'sid': r['sid']}, {'cmd': cmd, 'result': r}, name='race')
+        # judge the MULTI events
+        with open(tracef, 'a') as fh:
+            fh.write(open(tracer).read())
+        res = kzv.validate_trace('Trace_Multi', tracef, timeout=1800)
+        if res.error or res.violated:
+            raise kzv.ToolFailure('Trace_Multi failed: %s %s\n%s' % (res.error, res.violated, res.out[-1500:]))
+        tr = kzv.read_ndjson(tracef)
+        ck.cov['states'] += res.distinct
+        ck.cov['transitions'] += res.generated
+        for e, pred in _violations_from(res.out, tr)[:10]:
+            ck.violation({'kind': 'multi', 'pred': pred, 'cfg': e['cfg']}, {'cmd': 'multi', 'event': e}, name='multi')
+        # race reports
+        races = []
+        for f in glob.glob(logp + '*'):
+            txt = open(f, errors='replace').read()
+            for rep in txt.split('==================')[1:]:
+                if 'DATA RACE' in rep:
+                    races.append(rep.strip())
+        seen = set()
+        for rep in races:
+            frames = [l.strip() for l in rep.splitlines() if 'kanzi-go/v2' in l or '/repo/v2' in l or '/v2/' in l]
+            key = tuple(frames[:2])
+            if key in seen:
+                continue
+            seen.add(key)
+            ck.violation({'kind': 'race', 'pred': 'C18_data_race', 'frames': frames[:4]}, {'cmd': 'multi/replay under -race', 'report': rep[:4000]}, name='race')
+        ck.cov['evaluations'] += n1 + n2 + nrep
+        ck.cov['distinct_nontrivial'] += n1 + n2 + nrep
+        ck.cov['traces_validated_against_impl'] += n1 + n2 + nrep
+        ck.cov['pipelines_plain'] = n1
+        ck.cov['pipelines_race_build'] = n2
+        ck.cov['model_schedules_replayed_under_race_detector'] = nrep
+        ck.cov['race_reports'] = len(races)
+        ck.sample({'MULTI': tr[0]})
+        ck.cov['explanation'] = ('the Go race detector observes the memory accesses (TLA+ cannot); the specification supplies the ownership discipline '
+                                 '(W_Ownership / R_Ownership model-checked on KzWriter / KzReader) and the schedules: the edge cover of the state graphs is '
+                                 'replayed through the gates in a -race build, and K concurrent pipelines over all presets and random chains run with '
+                                 'perturbed schedules, each compared with its isolated run (Trace_Multi.tla)')
+    finally:
+        shutil.rmtree(base, ignore_errors=True)
+    ck.cov['rule'] = ('ownership invariants model-checked; N pipelines (the ten level presets + random chains x codecs, jobs 1..16 on both sides) run alone then all '
+                      'together with yields/sleeps injected at the hooks: stream and decoded output must be identical (Trace_Multi); the same plus the model '
+                      'schedules in a -race build: any race report whose stack is in the repository is a violation')
+    ck.assumptions += ['absence of a race report is not a proof of race freedom: only executed schedules are observed']
